@@ -36,10 +36,10 @@ ASSUMPTIONS = [
 PROBES = ["restart_after_other_use", "feature_all_steps", "resim_old_buffers_checked", "shared_underlier_resim",
           "prev_output_corrupted_then_hedged", "model_raise_then_hedged", "hedger_cast", "listed_hedge",
           "lazy_model", "requires_grad_flag_flipped", "kept_feature_reused", "listed_quote_vs_fresh_pricer", "clone_opposite_grad_mode", "clone_opposite_module_mode",
-          "kept_bs_module_reused", "feature_object_shared_by_two_hedgers", "attribute_assigned_on_live_object", "relisted_between_calls"]
+          "kept_bs_module_reused", "fresh_contract_twin", "listed_pricer_raised", "feature_object_shared_by_two_hedgers", "attribute_assigned_on_live_object", "relisted_between_calls"]
 
 
-class SimFault(Exception):
+class SimFault(RuntimeError):
     pass
 
 
@@ -221,7 +221,15 @@ def generate(rng):
 
     while len(ops) < n_ops:
         actor = rng.choice(actors)
-        kind = rng.wchoice([("simulate", 3), ("hedger_op", 6), ("quant", 4), ("cast", 1), ("fault", 10 * fault_rate), ("set_attr", 1)])
+        kind = rng.wchoice([("simulate", 3), ("hedger_op", 6), ("quant", 4), ("cast", 1), ("fault", 10 * fault_rate), ("set_attr", 1),
+                            ("pricer_raises", 0.6 if any(x.get("listed") for x in derivs) else 0)])
+        if kind == "pricer_raises":
+            # F8: the pricing callback of a listed derivative raises once while its quote is read; later quotes, hedges and P&L
+            # are those of the current series all the same
+            dl = rng.choice([x for x in derivs if x.get("listed")])
+            if sim[dl["underlier"]] is not None and not too_short(dl):
+                emit({"op": "pricer_raises", "target": dl["id"]}, actor)
+            continue
         if kind == "set_attr":
             # the user re-parameterises a live object: results afterwards depend on the new attribute only
             listed_ds = [x for x in derivs if x.get("listed")]
@@ -299,8 +307,8 @@ def generate(rng):
             emit(op, actor)
         elif kind == "quant":
             qk = rng.wchoice([("payoff", 2), ("feature", 5), ("listed_spot", 3), ("bs_bound", 2), ("bs_explicit", 2),
-                              ("autogreek", 1), ("criterion", 4), ("functional", 2), ("pl_view", 1), ("crit_on_pl", 1)])
-            if qk in ("payoff", "feature", "listed_spot", "bs_bound", "pl_view", "crit_on_pl"):
+                              ("autogreek", 1), ("criterion", 4), ("functional", 2), ("pl_view", 1), ("crit_on_pl", 1), ("twin", 3)])
+            if qk in ("payoff", "feature", "listed_spot", "bs_bound", "pl_view", "crit_on_pl", "twin"):
                 cands = [d for d in derivs if sim[d["underlier"]] is not None and not too_short(d)]
                 if qk == "listed_spot":
                     cands = [d for d in cands if d.get("listed")]
@@ -618,6 +626,23 @@ def _execute(program, stats, hist):
             cast_module_outputs(h.inputs, DT[op["dtype"]])
             stats.probe("hedger_cast")
             hist.add(actor=op.get("actor"), op="hedger_to", hedger=op["hedger"], dtype=op["dtype"])
+        elif name == "pricer_raises":
+            dl_ = world.derivatives[op["target"]]
+            pr_ = getattr(dl_, "pricer", None)
+            raised = False
+            if hasattr(pr_, "armed"):
+                pr_.armed = True
+                try:
+                    dl_.spot
+                except RuntimeError:
+                    raised = True
+                except Exception:
+                    raised = True
+                pr_.armed = False
+            stats.fault("F8_callback_exception")
+            if raised:
+                stats.probe("listed_pricer_raised")
+            hist.add(actor=op.get("actor"), op="pricer_raises", target=op["target"], raised=raised)
         elif name == "relist":
             from ..world import make_pricer
             dl_ = world.derivatives[op["target"]]
@@ -808,6 +833,31 @@ def _do_quant(world, op, stats, hist, seq):
     try:
         if k == "payoff":
             out = world.derivatives[op["derivative"]].payoff()
+        elif k == "twin":
+            # restart of the *contract*: a derivative object built now from the live one's public attributes, on the same
+            # underlier, must report the same payoff and the same state (the live one has a history of dtypes, maturities,
+            # strikes and simulations behind it)
+            d = world.derivatives[op["derivative"]]
+            ul = next(iter(d.underliers()))
+            kw = {a: getattr(d, a) for a in ("call", "strike", "maturity", "start") if hasattr(d, a)}
+            twin = type(d)(ul, **kw)
+            stats.probe("fresh_contract_twin")
+            for meth in ("payoff_fn", "time_to_maturity", "moneyness", "log_moneyness", "max_moneyness", "max_log_moneyness"):
+                if not hasattr(d, meth):
+                    continue
+                for arg in ((), (0,), (-1,)) if meth != "payoff_fn" else ((),):
+                    try:
+                        a_ = getattr(d, meth)(*arg)
+                    except Exception:
+                        continue   # outside the domain (log of a non-positive rate ...): nothing to compare
+                    b_ = getattr(twin, meth)(*arg)
+                    stats.checks += 1
+                    if a_.dtype != b_.dtype or not bit_equal(a_.detach(), b_.detach()):
+                        raise Violation(ID, "history_dependent", "derivative.%s" % meth, {
+                            "argument": list(arg), "live": a_, "fresh_contract_on_same_underlier": b_, "dtype_live": str(a_.dtype),
+                            "dtype_fresh": str(b_.dtype)}, seq)
+            out = d.payoff_fn()
+            hazard = True
         elif k == "listed_spot":
             from ..world import make_pricer
             dl = world.derivatives[op["derivative"]]
